@@ -246,9 +246,17 @@ def run_verus_unit(repo, unit_name, variant, workdir, log, only_fns=None):
         failed_count += 1
     # failures inside a function that contains a construct Verus models imprecisely are not refutations
     imprecise = {it.qualname(): it.imprecise for it in bu.items if getattr(it, "imprecise", None)}
-    screened = [f for f in res["failures"] if f["function"] in imprecise]
+    def _is_screened(f):
+        if f["function"] not in imprecise:
+            return False
+        # an integer overflow / division by zero does not depend on the value an unmodelled float cast yields: it stays a refutation
+        if all(r.startswith("float cast") for r in imprecise[f["function"]]) and \
+                ("arithmetic underflow/overflow" in f["obligation"] or "division by zero" in f["obligation"]):
+            return False
+        return True
+    screened = [f for f in res["failures"] if _is_screened(f)]
     if screened:
-        res["failures"] = [f for f in res["failures"] if f["function"] not in imprecise]
+        res["failures"] = [f for f in res["failures"] if not _is_screened(f)]
         for f in screened:
             res["undecided"].append("proof of %s failed, but the function contains %s, which this Verus models imprecisely: undecided" % (f["obligation"], "; ".join(imprecise[f["function"]])))
         if not res["failures"]:
